@@ -38,7 +38,7 @@ def suite(rd):
 def main():
     a = sys.argv[1:]
     pid = a[0]
-    src = a[1] if len(a) > 1 and not a[1].startswith('--') else '/tmp/seed/%s/out' % pid
+    src = os.path.abspath(a[1] if len(a) > 1 and not a[1].startswith('--') else '/tmp/seed/%s/out' % pid)
     checks = [pid]
     if '--checks' in a:
         checks = a[a.index('--checks') + 1].split(',')
